@@ -27,7 +27,7 @@ import (
 var names = []string{"A", "B", "C"}
 var prios = []int{300, 200, 100}
 
-var answers = []string{"ok", "ok4xx", "ok5xx"}
+var answers = []string{"ok", "ok4xx", "ok5xx", "ok099"}
 var faults = append(append([]string{}, scen.PreKinds...), scen.PostKinds...)
 
 // holding kinds: the request reaches the backend, so a gate can hold the attempt open
@@ -37,7 +37,7 @@ func mkEP(i int, kind string, r *vlib.Rng, bal string) scen.EPSpec {
 	n := 40 + r.Intn(200)
 	k := 1 + r.Intn(n-1)
 	chunked := r.Bool()
-	ct := "application/json"
+	ct := vlib.Pick(r, []string{"application/json", "application/json", "text/event-stream", "application/x-ndjson"})
 	e := scen.EPSpec{Name: names[i], Prio: prios[i]}
 	if bal != "priority" {
 		e.Prio = 100
@@ -49,6 +49,8 @@ func mkEP(i int, kind string, r *vlib.Rng, bal string) scen.EPSpec {
 		e.Beh = scen.OkBeh(names[i], 404, n, chunked, ct)
 	case "ok5xx":
 		e.Beh = scen.OkBeh(names[i], 503, n, chunked, ct)
+	case "ok099": // a status net/http's client accepts but ResponseWriter.WriteHeader rejects with a panic
+		e.Beh = scen.OkBeh(names[i], 99, n, chunked, ct)
 	case "open":
 		e.Open = true
 		e.Beh = scen.OkBeh(names[i], 200, n, chunked, ct)
